@@ -91,7 +91,9 @@ class LoopMixin:
         if v.ty.name == "List":
             if v.ty.args[0] is None:
                 return IterDesc(lambda s: z3.IntVal(0), lambda s, k: NONE_VAL)
-            return IterDesc(lambda s: self.list_len(v, s), lambda s, k: self.list_elem_val(v, k, s))
+            d = IterDesc(lambda s: self.list_len(v, s), lambda s, k: self.list_elem_val(v, k, s))
+            d.seq = v
+            return d
         if v.ty.name == "Tuple":
             items = v.t
 
@@ -250,6 +252,8 @@ class LoopMixin:
         # 1. invariant holds on entry
         if is_for:
             st.env[idx] = mk_int(0)
+            if getattr(desc, "seq", None) is not None:
+                st.env["__seq"] = desc.seq          # the sequence iterated over (invariants may name it)
         st.ghost = dict(st.ghost)
         st.ghost["__loop_entry__"] = st.copy()
         for k, inv in enumerate(invs):
@@ -617,7 +621,8 @@ class CompMixin:
         extra = sub.pc[len(st.pc):]
         if extra:
             st.assume(z3.ForAll([j], z3.And(*extra)))
-        items = self.def_array(st, j, to_sort_term(v, v.ty))
+        src = desc.elem(sub, j)
+        items = self.def_array(st, j, to_sort_term(v, v.ty), also=[src.t] if not isinstance(src.t, (list, tuple)) else [])
         return self.new_list(v.ty, st, n, items)
 
     def own_element_effects(self, c, fi, f, call, g):
@@ -635,12 +640,12 @@ class CompMixin:
             if "." not in m:
                 return None
             p, fld = m.split(".", 1)
-            if p not in params or fld != "data":
+            if p not in params or fld != "data[]":
                 return None
             k = params.index(p)
             if k >= len(call.args) or not (isinstance(call.args[k], ast.Name) and call.args[k].id == g.target.id):
                 return None
-            own.append((p, fld))
+            own.append((p, "data"))
         return own
 
     def comp_map_contract(self, e, g, desc, fi, c, f, st, own=()):
